@@ -1,0 +1,35 @@
+//go:build verif
+
+package util
+
+// Machine-checked contracts for package util (comment-only; see klog/contracts_verif.go).
+
+//@ spec dnow(now gotime.Time) int = dn(gotime_year(now), gotime_month(now), gotime_day(now))
+//@ spec nowOk(now gotime.Time) bool = 0 <= gotime_year(now) && gotime_year(now) <= 9999 && 1 <= dnow(now) && dnow(now) <= 3652423
+
+// AtDate: the explicit date if given, otherwise today / yesterday / tomorrow relative to the clock.
+//@ func (*AtDateArgs).AtDate
+//@ requires nowOk(now)
+//@ ensures implies(nonnil(args.Date), result == args.Date)
+//@ ensures implies(isnil(args.Date), typeis(result, *klog.date) && klog.ddn(result) == dnow(now) + ite(args.Yesterday, -1, ite(args.Tomorrow, 1, 0)))
+
+// AtTime: the explicit time if given; otherwise the current minute rounded to the nearest multiple (ties up) of the
+// --round value or the configured default, written relative to the target date: plain for today, `>`-shifted (+24h)
+// for yesterday's date, `<`-shifted (-24h) for tomorrow's date; an error for any other date and whenever the shifted
+// time cannot be represented. It never returns (nil, nil).
+//@ func (*AtDateAndTimeArgs).AtTime
+//@ requires nowOk(now)
+//@ requires implies(nonnil(args.AtDateArgs.Date), typeis(args.AtDateArgs.Date, *klog.date))
+//@ let nowOff = 60*gotime_hour(now) + gotime_minute(now)
+//@ let useFlag = nonnil(args.Round)
+//@ let useCfg = !useFlag && config.DefaultRounding.isSet
+//@ requires implies(useCfg, nonnil(config.DefaultRounding.BaseParam.value))
+//@ let rt = ite(useFlag, service.roundTo(nowOff, args.Round.ToInt()), ite(useCfg, service.roundTo(nowOff, config.DefaultRounding.BaseParam.value.ToInt()), nowOff))
+//@ let dlt = ite(nonnil(args.AtDateArgs.Date), klog.ddn(args.AtDateArgs.Date) - dnow(now), ite(args.AtDateArgs.Yesterday, -1, ite(args.AtDateArgs.Tomorrow, 1, 0)))
+//@ ensures implies(nonnil(args.Time), result0 == args.Time && isnil(result1))
+//@ ensures implies(isnil(result1), nonnil(result0))
+//@ ensures implies(isnil(args.Time) && dlt == 0, isnil(result1) && klog.off(result0) == rt)
+//@ ensures implies(isnil(args.Time) && dlt == -1 && rt + 1440 < 2880, isnil(result1) && klog.off(result0) == rt + 1440)
+//@ ensures implies(isnil(args.Time) && dlt == -1 && rt + 1440 >= 2880, nonnil(result1))
+//@ ensures implies(isnil(args.Time) && dlt == 1, isnil(result1) && klog.off(result0) == rt - 1440)
+//@ ensures implies(isnil(args.Time) && (dlt < -1 || dlt > 1), nonnil(result1))
